@@ -33,6 +33,9 @@ def make(check, self_inputs=False, budget_quick=60, budget_thorough=1500, tasks=
             for i in range(n):
                 inp = task.gen_self(rng) if self_inputs else task.gen(rng)
                 inp["transform"] = {"shift": str(Fr(rng.randint(1, 128), 32)), "seed": rng.randint(0, 10 ** 6)}
+                if getattr(task, "BIG_SHIFT", False) and rng.random() < 0.25:
+                    # hours into a recording: still exact in binary64 on the dyadic lattice, far beyond single precision
+                    inp["transform"]["shift"] = str(Fr(2) ** rng.choice([12, 14, 16]) + Fr(rng.randint(0, 31), 32))
                 if rng.random() < 0.15:
                     inp["fresh"] = True      # scored as the first call after the library's module state is reset
                 yield inp
